@@ -313,6 +313,31 @@ func Verif_C06_notice_then_stale() {
 	verifapi.Assert("late-update-after-notice-keeps-record", v.infoUnchanged())
 }
 
+// Verif_C06_link_loss_then_stale: the node's own link to the origin is lost (removeConnection, as every
+// session end does) and afterwards an update of that origin which is older than or equal to the one
+// accepted before arrives through the other neighbour: losing a link is no reason to forget how far the
+// origin's updates had progressed - the late update changes nothing and is not relayed.
+func Verif_C06_link_loss_then_stale() {
+	v := verifC06Setup()
+	s := v.n.s
+	verifapi.Assume(verifapi.All(v.origin == "B", v.hadOld, !v.bad, !v.seen, v.ri.SuspectedDuplicate == 0))
+	e2, s2 := v.ri.UpdateEpoch, v.ri.UpdateSequence
+	verifapi.Assume(verifapi.Any(e2 < v.oldE, verifapi.All(e2 == v.oldE, s2 <= v.oldS)))
+	s.removeConnection("B")
+	verifapi.Quiesce()
+	mid := verifapi.DeepCopy(s.knownConnectionCosts)
+	v.ri.ForwardingNode = "C"
+	s.handleRoutingUpdate(v.ri, "C")
+	verifapi.Quiesce()
+	_, toC := v.outputs()
+	verifapi.Cover("late-update-after-link-loss")
+	verifapi.Assert("late-update-after-link-loss-not-relayed", len(toC) == 0)
+	verifapi.Assert("late-update-after-link-loss-keeps-picture", verifapi.All(
+		verifapi.DeepEqual(mid["A"], s.knownConnectionCosts["A"]), verifapi.DeepEqual(mid["B"], s.knownConnectionCosts["B"]),
+		verifapi.DeepEqual(mid["C"], s.knownConnectionCosts["C"]), verifapi.DeepEqual(mid["D"], s.knownConnectionCosts["D"])))
+	verifapi.Assert("late-update-after-link-loss-keeps-record", v.infoUnchanged())
+}
+
 // Verif_C06_concurrent_deliveries: two different updates of one origin (same epoch, sequences n and
 // n+1, different neighbour sets) are handled at the same time by two sessions (two goroutines, every
 // schedule within the pre-emption bound): whichever order they are processed in, the node ends up with
